@@ -18,3 +18,36 @@ PROPS["C08"] = dict(
         "the Go harness only concatenates source pieces, builds context values and compares bytes / spy counters",
     ],
 )
+
+PROPS["C09"] = dict(
+    level="model_checking",
+    stages=[dict(name="enum", module="MC_C09", cfg={"quick": "MC_C09_quick.cfg", "thorough": "MC_C09_thorough.cfg"},
+                 timeout={"quick": 300, "thorough": 1500})],
+    rule="one case per program of the families ifc/ifl (if-chains over condition values of every type, from context and as "
+         "literals), loop (lists, typed slices, strings incl. multi-byte, ranges; all 7 loop counters printed), kv, nest "
+         "(2 and 3 levels, outer counters printed after the inner loop), setp (all sequences of set/print/if/for statements "
+         "up to MaxSetLen); every case is non-trivial (contains at least one control construct)",
+    assumptions=["reference semantics TwigSem.tla is the oracle", "ranges only with a step sign consistent with start/end; "
+                 "loop variables are not read after their loop; set targets are defined before any loop reads them"],
+)
+
+PROPS["C10"] = dict(
+    level="model_checking",
+    stages=[dict(name="enum", module="MC_C10", cfg={"quick": "MC_C10_quick.cfg", "thorough": "MC_C10_thorough.cfg"},
+                 timeout={"quick": 300, "thorough": 1500})],
+    nontrivial=lambda r: "chain:0" not in (r.get("tags") or []),
+    rule="one case per extends chain: child levels x per-block definition kind (absent/text/empty/text+parent()/parent()) "
+         "x base kinds x 5 base layouts (top, nested, loop, if, if-false) + dynamic parent name; non-trivial = chain length >= 1",
+    assumptions=["reference semantics TwigSem.tla (LevelDefining/BlockDef/parent()) is the oracle",
+                 "extending templates contain only extends, text and blocks at top level"],
+)
+
+PROPS["C11"] = dict(
+    level="model_checking",
+    stages=[dict(name="enum", module="MC_C11", cfg={"quick": "MC_C11_quick.cfg", "thorough": "MC_C11_thorough.cfg"},
+                 timeout={"quick": 300, "thorough": 900})],
+    rule="one case per (with, only, ignore missing, name form, behaviour of the included template, placement); two real "
+         "renders per case: the program and the program with the include removed (2-run non-interference); every case is non-trivial",
+    assumptions=["reference semantics TwigSem.tla is the oracle; TLC checks NonInterference on the model itself",
+                 "inside macros every variable that is read is a parameter (the property does not say whether a macro sees its caller's variables)"],
+)
